@@ -485,7 +485,7 @@ func buildText(name string, g *Rng, target, at int) string {
 }
 
 func runSplit(res *Result, d *Driver, g *Rng, tier, prop string) {
-	res.Rule = "texts per coding (CMPP 0,8,9,15 / SMPP 0,1,3,8,99 and invalid numbers) with encoded length 0,1, around the single/multi thresholds (140 octets, 160 septets) and around k*134 / k*153 (k=1..4, ±2), multi-unit characters (escape pairs, surrogate pairs, 2- and 4-octet GB18030) starting at every offset -4..+4 relative to every part boundary 1..4, lengths around 255/256 parts, every reference byte class; header parser: (ref,total,seq) grid, 16-bit references, near-miss headers; non-trivial = distinct non-empty request"
+	res.Rule = "texts per coding (CMPP 0,8,9,15 / SMPP 0,1,3,8,99 and invalid numbers) with encoded length 0,1, around the single/multi thresholds (140 octets, 160 septets) and around k*134 / k*153 (k=1..4, ±2), multi-unit characters (escape pairs, surrogate pairs, 2- and 4-octet GB18030) starting at every offset -4..+4 relative to every part boundary 1..4, lengths around 255/256 parts, requests that fall back to UCS-2 (surrogate pairs and units with low octet 0x1B around the boundaries), every reference byte class; header parser: (ref,total,seq) grid, 16-bit references, near-miss headers; non-trivial = distinct non-empty request"
 	thorough := tier == "thorough"
 	sc := &splitCtx{res: res, prop: prop}
 	reqs := append([]coding{}, codings...)
@@ -570,6 +570,28 @@ func runSplit(res *Result, d *Driver, g *Rng, tier, prop string) {
 						t := lead + strings.Repeat("a", n) + "[" + strings.Repeat("b", 20+per)
 						sc.evalSplit(rq, t, 5)
 					}
+				}
+			}
+		}
+	}
+	// fallback: a coding that cannot represent the text is replaced by UCS-2, and it is UCS-2's rules that must
+	// then govern the cuts (surrogate pairs around every boundary; units whose low octet is the GSM escape 0x1B)
+	for _, rq := range reqs {
+		if rq.name != "ascii" && rq.name != "latin1" && rq.name != "gsm" && rq.name != "gsmpacked" {
+			continue
+		}
+		_, per := limits("ucs2")
+		for bnd := 1; bnd <= 3; bnd++ {
+			for off := -4; off <= 2; off += 2 {
+				sc.evalSplit(rq, "中"+buildText("ucs2", g, bnd*per+38, bnd*per+off-2), 21)
+			}
+			for _, r := range []rune{0x041B, 0x4E1B, 0x011B} {
+				for d := 0; d <= 2; d++ {
+					n := bnd*per/2 - 2 - d // so that r is the last, last but one, … unit of part `bnd`
+					if n < 0 {
+						continue
+					}
+					sc.evalSplit(rq, "中"+strings.Repeat("a", n)+string(r)+strings.Repeat("b", 40), 22)
 				}
 			}
 		}
